@@ -186,7 +186,7 @@ def replay(vd, vecs, bdir, wd, pid, flavour_tag="plain", check_illformed=True,
 
 
 ENGINE_INVARIANTS = ["OutWithinDen", "DoneMeansAll", "DiagWithin", "OrderWhereFixed", "Lifecycle",
-                     "AllDeadAfterDestroy", "NeverOutOfFuel", "Compiles", "Simplified"]
+                     "AllDeadAfterDestroy", "NeverOutOfFuel", "Compiles", "Simplified", "Periodic"]
 
 
 def model_check(vd, family, maxw, workers=16, timeout=1500, pinned=False, invariants=None):
